@@ -128,8 +128,9 @@ class World(DuoWorld):
         self.sub_ids, self.reg_ids = {}, {}
         for i, t in enumerate(self.topics):
             self.call(resp.subscribe, self.make_handler(t), t)
+        from autobahn.wamp.types import RegisterOptions
         for i, p in enumerate(self.procs):
-            self.call(resp.register, self.make_endpoint(p), p)
+            self.call(resp.register, self.make_endpoint(p), p, options=RegisterOptions(details_arg="details"))
         self.settle()
         n = 600
         for m in list(self.r.inbox[self.r.cursor:]):
@@ -155,11 +156,16 @@ class World(DuoWorld):
         return handler
 
     def make_endpoint(self, proc):
-        def endpoint(*a, **k):
+        def endpoint(*a, details=None, **k):
             from autobahn.wamp.exception import ApplicationError
             self.endpoint_calls.append((proc, tuple(jsonish(list(a))), jsonish(k)))
             op = self.by_tok.get(a[0] if a else None)
             self.run.log("endpoint", proc, op.tok if op else None)
+            if op is not None and getattr(op, "progressive", 0) and details is not None and details.progress is not None:
+                # progressive results: the less travelled way a responder's payload goes out
+                for i in range(op.progressive):
+                    details.progress("PROG%d-%s" % (i, op.tok), n=i)
+                    self.run.probe("progressive-result-sent")
             if op is not None and op.reply == "error":
                 raise ApplicationError("com.secret.error" if proc.startswith("com.secret") else "com.public.error", "ERR-" + op.tok, why="W-" + op.tok)
             return "RES-" + (op.tok if op else "?")
@@ -298,7 +304,9 @@ class World(DuoWorld):
             if not flip and ch.flag("call-with-options-object", 0.3):
                 # the options-object variant of call(): a progress handler is registered although only a final result comes
                 op.progress_seen = []
-                opts = types.CallOptions(on_progress=lambda *a, **k: op.progress_seen.append((a, k)))
+                op.progress_forwarded = 0
+                op.progressive = ch.choose(3, "n-progressive-results", (3, 1, 1))
+                opts = types.CallOptions(on_progress=lambda *a, **k: op.progress_seen.append((tuple(jsonish(list(a))), jsonish(k))))
                 f = self.call(lambda: self.o.session.call(op.uri, *op.args, options=opts, **op.kwargs))
                 self.run.probe("call-with-on_progress-option")
             else:
@@ -353,7 +361,7 @@ class World(DuoWorld):
             self.next_id += 1
             op.inv_id = self.next_id
             inv = M.Invocation(op.inv_id, self.reg_ids[op.uri], args=msg.args, kwargs=msg.kwargs, payload=msg.payload, enc_algo=msg.enc_algo,
-                               enc_key=msg.enc_key, enc_serializer=msg.enc_serializer)
+                               enc_key=msg.enc_key, enc_serializer=msg.enc_serializer, receive_progress=msg.receive_progress)
             self.remember_cipher(msg.payload, op.uri)
             self.queue.append((self.r, inv, op, "invocation", op.enc["request"]))
         elif isinstance(msg, M.Yield):
@@ -366,9 +374,9 @@ class World(DuoWorld):
             if not op.tamper.get("invocation"):
                 self.wire_check(side, msg, op, enc_name)
             res = M.Result(op.call_id, args=msg.args, kwargs=msg.kwargs, payload=msg.payload, enc_algo=msg.enc_algo, enc_key=msg.enc_key,
-                           enc_serializer=msg.enc_serializer)
+                           enc_serializer=msg.enc_serializer, progress=msg.progress)
             self.remember_cipher(msg.payload, op.uri)
-            self.queue.append((self.o, res, op, "result", enc_name))
+            self.queue.append((self.o, res, op, "progress" if msg.progress else "result", enc_name))
         elif isinstance(msg, M.Error):
             op = self.op_for_request("inv_id", msg.request)
             if op is None:
@@ -398,6 +406,11 @@ class World(DuoWorld):
         ch = self.run.ch
         M = self.M
         i = ch.choose(len(self.queue), "which")
+        for j in range(i):
+            # (a router keeps the order of what it forwards for one call to one peer: progressive results before the final one)
+            if self.queue[j][2] is self.queue[i][2] and self.queue[j][0] is self.queue[i][0]:
+                i = j
+                break
         side, msg, op, direction, enc_name = self.queue.pop(i)
         envelope_uri = msg.error if direction == "error" else op.uri
         dec_name = self.resolve(side.name, envelope_uri)
@@ -438,6 +451,7 @@ class World(DuoWorld):
                 self.run.fault("tamper:%s:%s" % (direction, tampered))
                 op.tampered = getattr(op, "tampered", []) + [(direction, tampered)]
         n_h, n_e = len(self.handler_calls), len(self.endpoint_calls)
+        op._n_prog = len(getattr(op, "progress_seen", None) or [])
         err = self.deliver_to(side, msg)
         self.settle()
         if direction == "invocation":
@@ -473,6 +487,19 @@ class World(DuoWorld):
             else:
                 if len(new_e) != 1 or new_e[0] != (op.uri, exp_args, exp_kwargs):
                     run.violate("C20.exact-or-nothing", "invocation-payload-differs-or-missing", repr(new_e)[:200])
+        elif direction == "progress":
+            new_p = op.progress_seen[op._n_prog:]
+            i = op.progress_forwarded
+            op.progress_forwarded += 1
+            if tampered or bad_key or getattr(op, "expect_enc_error", False):
+                if new_p:
+                    run.violate("C20.exact-or-nothing", "progress-handler-invoked-under-wrong-key", repr(new_p)[:160])
+                else:
+                    run.probe("undecodable-progressive-result-dropped")
+            elif new_p != [(("PROG%d-%s" % (i, op.tok),), {"n": i})]:
+                run.violate("C20.exact-or-nothing", "progressive-result-differs-or-missing", repr(new_p)[:200])
+            else:
+                run.probe("progressive-result-recovered")
         elif direction in ("result", "error"):
             st = op.w.state()
             if st[0] == "pending":
